@@ -8,26 +8,26 @@ NOTE = ("Bounded: every verdict holds only within the bounds written per obligat
         "CrossHair 0.0.110's models of builtins (counterexamples are replayed in plain CPython before being reported; a wrong "
         "'confirmed' from an unfaithful model cannot be excluded), z3/cvc5, the harness oracles written from the property text.")
 P = {
- 'C01': ('E1', 'CrossHair symbolic execution of cook+render on symbolic source/literal text vs. character-level oracle', '4 C01'),
- 'C02': ('E1', 'CrossHair symbolic execution of the real namespace stack and call protocol (symbolic definedness bits and values)', '4 C02'),
- 'C03': ('E1', 'CrossHair symbolic execution of the real render path on a symbolic value string vs. independent escaping oracle', '4 C03'),
- 'C04': ('E1', 'CrossHair: inductive taint invariant per pipeline stage + whole-render glue on symbolic tainted strings', '4 C04'),
- 'C05': ('E1', 'CrossHair two-run non-interference (self-composition) over symbolic secrets and guard decisions', '4 C05'),
- 'C06': ('E1+E4', 'CrossHair on cook() with symbolic source text + z3 search for exponential regex ambiguity on the live patterns', '4 C06'),
- 'C07': ('E1', 'CrossHair: three printers of one abstract template, normalised block programs and renders compared', '4 C07'),
- 'C08': ('E1', 'CrossHair with symbolic fault positions (k, k2) over namespace-stack snapshots', '4 C08'),
- 'C09': ('E1', 'CrossHair over symbolic truth values/definedness with a call-log oracle', '4 C09'),
- 'C10': ('E1', 'CrossHair over symbolic sequence contents/options vs. plain-Python oracle of sequence variables', '4 C10'),
- 'C11': ('E2+E1', 'AST->SMT translation of opt/renderwb window arithmetic (z3, unbounded ints) + CrossHair on real batched renders', '4 C11'),
- 'C12': ('E2+E1', 'AST->SMT touch-index analysis of opt/renderwb + CrossHair with counting iterators', '4 C12'),
- 'C13': ('E1', 'CrossHair over symbolic keys vs. stable-sort oracle', '4 C13'),
+ 'C01': ('E1', 'CrossHair symbolic execution of cook+render: symbolic raw sources and symbolic code points in literal slots / after bogus openers / at composition seams vs. character-level oracle', '4 C01, 7.3'),
+ 'C02': ('E1', 'CrossHair symbolic execution of the real namespace stack and call protocol (symbolic definedness bits, stack contents, client shapes)', '4 C02'),
+ 'C03': ('E1', 'CrossHair symbolic execution of the real render path on a symbolic value string vs. independent escaping oracle; pools for non-string values', '4 C03'),
+ 'C04': ('E1', 'CrossHair: inductive taint invariant per pipeline stage (stage order read from the live modifiers list) + whole-render glue on symbolic tainted strings; pool for %-format templates', '4 C04, 7.6'),
+ 'C05': ('E1', 'CrossHair two-run non-interference (self-composition) over symbolic secrets and guard decisions per access channel; explicit-oracle skip_unauthorized subsets', '4 C05, 7.3, 7.5'),
+ 'C06': ('E1+E4', 'CrossHair on cook() with symbolic source text / spliced code points / selector-enumerated token sequences and attribute lists vs. reference grammar recogniser with located-error check + z3 search for exponential regex ambiguity on the live patterns', '4 C06, 7.3'),
+ 'C07': ('E1', 'CrossHair: three printers of one abstract template (selector-enumerated, untraced) with structural normalisation of the compiled programs; pre-compiled variants rendered on symbolic namespace values', '4 C07, 7.3'),
+ 'C08': ('E1', 'CrossHair with symbolic fault positions and kinds over namespace-stack snapshots (single faults traced, double faults by selectors), symbolic initial recursion level', '4 C08, 7.3'),
+ 'C09': ('E1', 'CrossHair over symbolic truth values/definedness/falsy kinds with a call-log oracle', '4 C09'),
+ 'C10': ('E1', 'CrossHair over symbolic sequence lengths and payloads vs. plain-Python oracle of every sequence variable', '4 C10'),
+ 'C11': ('E2+E1', 'AST->SMT translation of opt/renderwb window arithmetic (z3, unbounded ints) + CrossHair on real batched renders and next/previous walks', '4 C11'),
+ 'C12': ('E2+E1', 'AST->SMT touch-index analysis of opt/renderwb (lazy index semantics, unbounded ints) + CrossHair with counting iterators incl. unbounded ones', '4 C12, 7.3'),
+ 'C13': ('E1', 'CrossHair over symbolic keys of many types vs. stable insertion-sort oracle; fresh template rendered twice for per-render sort specs', '4 C13, 7.3'),
  'C14': ('E1', 'CrossHair over symbolic raise/return decisions vs. reference interpreter of try/except/else/finally', '4 C14'),
- 'C15': ('E1', 'CrossHair over symbolic values/sizes vs. pipeline oracle', '4 C15'),
- 'C16': ('E2+E1', 'AST->SMT of statistics over Real and IEEE Float64 (z3/cvc5) + CrossHair on real renders', '4 C16'),
- 'C17': ('E1', 'CrossHair over symbolic operation histories (render/pickle/copy/munge/cook)', '4 C17'),
- 'C18': ('E3', 'SMT schedule synthesis over recorded shared-memory traces, replayed on real threads', '4 C18'),
- 'C19': ('E1', 'CrossHair over symbolic text per alphabet class: bytes insert == text insert; ustr laws', '4 C19'),
- 'C20': ('E1', 'CrossHair over symbolic lengths/click histories vs. set-of-expanded-paths model', '4 C20'),
+ 'C15': ('E1', 'CrossHair over symbolic values/sizes vs. pipeline oracle (pairs of modifiers in both orders, truncation for every string); selector pools for url/case/thousands laws', '4 C15, 7.3'),
+ 'C16': ('E2+E1', 'AST->SMT of statistics over Real/Int (z3) and IEEE Float64 (cvc5 binary, z3 cross-check) + CrossHair on real renders of mixed items', '4 C16, 7.3'),
+ 'C17': ('E1', 'CrossHair-enumerated operation histories (render/pickle/copy/munge/cook, untraced bodies) vs. freshly built templates; file-based templates', '4 C17, 7.3'),
+ 'C18': ('E3', 'SMT schedule synthesis (z3) over recorded shared-memory traces with read-consistency constraints, replayed on real threads', '4 C18, 7.3'),
+ 'C19': ('E1', 'CrossHair over symbolic text: bytes insert == text insert per path/form/encoding; ustr laws; pools for cp1252/utf-16', '4 C19'),
+ 'C20': ('E1', 'CrossHair-enumerated payload lengths (chunk layer with zlib stubbed) and click histories vs. set-of-expanded-paths model', '4 C20, 7.3'),
 }
 checks, na = [], []
 for pid, (eng, tech, ref) in sorted(P.items()):
@@ -41,7 +41,9 @@ for pid, (eng, tech, ref) in sorted(P.items()):
             'engine': eng,
             'level_claimed': {'category': 'other',
                               'text': 'Bounded symbolic verification of the real code: within the stated bounds the solver covers every '
-                                      'value on every explored path (stronger than sampling inside the bound); nothing is claimed outside.',
+                                      'value on every explored path (stronger than sampling inside the bound); nothing is claimed outside. '
+                                      'Obligations whose inputs are fixed by selectors (labelled as such in the evidence) are exhaustive '
+                                      'enumerations by path forking, not reasoning over value classes.',
                               'design_ref': 'DESIGN.md section ' + ref},
             'level_note': NOTE,
             'technique': tech,
@@ -62,7 +64,7 @@ m = {
  ],
  'checks': checks,
  'not_applicable': na,
- 'notes': 'See DESIGN.md. Exit codes: 0 ok, 1 VIOLATION, 3 harness error. Known findings: known_findings.json.',
+ 'notes': 'See DESIGN.md (section 7 = as built). Exit codes: 0 ok, 1 VIOLATION, 3 harness error. Known findings and fixed defects: known_findings.json. Seeded changes and what catches them: seeded/, DESIGN.md 7.7.',
 }
 with open(os.path.join(ROOT, 'MANIFEST.json'), 'w') as f:
     json.dump(m, f, indent=1)
